@@ -1006,6 +1006,7 @@ class SSHConnection(SSHPacketHandler, asyncio.Protocol):
         self._auth_in_progress = False
         self._auth_complete = False
         self._auth_final = False
+        self._auth_request_sent = False
         self._auth_methods = [b'none']
         self._auth_was_trivial = True
         self._username = ''
@@ -2084,6 +2085,7 @@ class SSHConnection(SSHPacketHandler, asyncio.Protocol):
 
         self.send_userauth_packet(MSG_USERAUTH_REQUEST, packet[1:],
                                   trivial=trivial)
+        self._auth_request_sent = True
 
     def send_userauth_failure(self, partial_success: bool) -> None:
         """Send a user authentication failure response"""
@@ -2605,7 +2607,7 @@ class SSHConnection(SSHPacketHandler, asyncio.Protocol):
 
         packet.check_end()
 
-        if self.is_client() and self._auth:
+        if self.is_client() and self._auth and self._auth_request_sent:
             auth = cast(ClientAuth, self._auth)
 
             if self._auth_was_trivial and self._disable_trivial_auth:
@@ -3656,6 +3658,8 @@ class SSHClientConnection(SSHConnection):
         if self._auth:
             self._auth.cancel()
             self._auth = None
+
+        self._auth_request_sent = False
 
         if next_method:
             self._auth_methods.pop(0)
